@@ -119,6 +119,11 @@ def gen(tier, rng):
                     continue
                 H.append(['new eHOME=2f68'] + tr + [f'copy_b {vlib.hx(s)} {vlib.hx(d)} {m} {w} 0', 'all_paths ' + vlib.hx('/')])
             H.append(['new eHOME=2f68'] + tr + [f'move_p {vlib.hx(s)} {vlib.hx(d)}', 'all_paths ' + vlib.hx('/')])
+    # multi-byte names in source and destination roots (destination paths are computed by trimming the source root as a string)
+    mb = ['mkdir_p ' + vlib.hx('/é/漢/a'), 'write_all ' + vlib.hx('/é/漢/f') + ' ' + vlib.hx('x'), 'write_all ' + vlib.hx('/é/g') + ' ' + vlib.hx('y'), 'mkdir_p ' + vlib.hx('/日本')]
+    for s_, d_ in [('/é', '/x'), ('/é', '/日本'), ('/é/漢', '/é/y'), ('/é/漢', '/日本'), ('/é/漢/f', '/日本/f'), ('/é', '/x/é')]:
+        H.append(['new eHOME=2f68'] + mb + [f'copy {vlib.hx(s_)} {vlib.hx(d_)}', 'all_paths ' + vlib.hx('/')])
+        H.append(['new eHOME=2f68'] + mb + [f'move_p {vlib.hx(s_)} {vlib.hx(d_)}', 'all_paths ' + vlib.hx('/')])
     return H, dict(kind='tree-heavy random histories + all ordered (src, dst) pairs over {a,b} x depth 2 on 3 trees x 4 Copier option sets (copy) and move_p', histories=len(H), exhaustive=True)
 
 
